@@ -117,6 +117,110 @@ def attr_object(rng):
     return bytes([ty, ln]) + body
 
 
+# objects a function code really takes (so that hostile sections get past the first validation pass and
+# reach the handlers and iterators): function -> [(group, variation, qualifiers)]
+_RANGED = [D.Q_RANGE8, D.Q_RANGE16]
+_COUNTED = [D.Q_COUNT8, D.Q_COUNT16]
+_PREFIXED = [D.Q_PREFIX8, D.Q_PREFIX16]
+_CTL = [(12, 1, _PREFIXED), (41, 1, _PREFIXED), (41, 2, _PREFIXED), (41, 3, _PREFIXED), (41, 4, _PREFIXED)]
+_FRZ = [(20, 0, _RANGED + [D.Q_ALL]), (50, 2, _COUNTED), (21, 0, [D.Q_ALL])]
+AFFINITY = {
+    1: [(1, 0, _RANGED + [D.Q_ALL]), (1, 2, _RANGED), (2, 0, _COUNTED + [D.Q_ALL]), (30, 0, _RANGED), (30, 5, _RANGED), (3, 0, _RANGED),
+        (110, 0, _RANGED + [D.Q_ALL]), (111, 0, _COUNTED + [D.Q_ALL]), (60, 1, [D.Q_ALL]), (60, 2, _COUNTED + [D.Q_ALL]), (60, 3, _COUNTED),
+        (0, 254, _RANGED + [D.Q_ALL]), (0, 211, _RANGED), (20, 0, _RANGED), (40, 0, _RANGED), (10, 0, _RANGED), (32, 0, _COUNTED), (34, 0, [D.Q_ALL])],
+    2: [(80, 1, _RANGED), (50, 1, _COUNTED), (50, 3, _COUNTED), (34, 1, _PREFIXED), (34, 2, _PREFIXED), (34, 3, _PREFIXED),
+        (0, 211, _RANGED), (0, 240, _RANGED + _PREFIXED), (110, 1, _RANGED), (1, 1, _RANGED), (10, 1, _RANGED), (50, 4, _COUNTED)],
+    3: _CTL, 4: _CTL, 5: _CTL, 6: _CTL,
+    7: _FRZ, 8: _FRZ, 9: _FRZ, 10: _FRZ, 11: _FRZ, 12: _FRZ,
+    20: [(60, 2, [D.Q_ALL]), (60, 3, [D.Q_ALL]), (60, 4, [D.Q_ALL]), (60, 1, [D.Q_ALL])],
+    21: [(60, 2, [D.Q_ALL]), (60, 3, [D.Q_ALL]), (60, 4, [D.Q_ALL])],
+    22: [(60, 1, [D.Q_ALL]), (60, 2, [D.Q_ALL]), (1, 0, _RANGED + [D.Q_ALL]), (30, 0, _RANGED + [D.Q_ALL]), (20, 0, [D.Q_ALL])],
+    25: [(70, 3, [D.Q_FREE])], 26: [(70, 4, [D.Q_FREE])], 27: [(70, 3, [D.Q_FREE])], 28: [(70, 7, [D.Q_FREE])],
+    29: [(70, 2, [D.Q_FREE])], 30: [(70, 4, [D.Q_FREE])],
+    129: [(1, 2, _RANGED), (1, 1, _RANGED), (3, 1, _RANGED), (2, 2, _PREFIXED), (30, 1, _RANGED), (32, 7, _PREFIXED), (110, 1, _RANGED),
+          (110, 255, _RANGED), (111, 2, _PREFIXED), (12, 1, _PREFIXED), (41, 3, _PREFIXED), (52, 2, _COUNTED), (50, 1, _COUNTED),
+          (0, 211, _RANGED), (0, 255, _RANGED), (70, 4, [D.Q_FREE]), (70, 5, [D.Q_FREE]), (70, 6, [D.Q_FREE]), (80, 1, _RANGED), (10, 2, _RANGED)],
+}
+AFFINITY[130] = AFFINITY[129]
+REQ_FUNCS = [1, 1, 2, 2, 2, 3, 4, 5, 5, 6, 7, 8, 9, 10, 11, 12, 20, 21, 22, 22, 25, 26, 27, 28, 29, 30]
+
+
+def valid_attr(rng):
+    t = rng.choice([1, 2, 3, 4, 5, 6, 7, 254, 255])
+    if t == 1:
+        body = rng.choice([b"", b"HELLO", "gr\u00fc\u00df".encode(), bytes(rng.range(0x20, 0x7E) for _ in range(rng.choice([1, 40, 255])))])
+    elif t in (2, 3): body = rng.bytes(rng.choice([1, 2, 4]))
+    elif t == 4: body = rng.bytes(rng.choice([4, 8]))
+    elif t in (5, 6): body = rng.bytes(rng.choice([0, 1, 7, 255]))
+    elif t == 7: body = rng.bytes(6)
+    elif t == 254: body = rng.bytes(2 * rng.choice([0, 1, 5, 127]))
+    else:
+        body = rng.bytes(2 * rng.choice([128, 130, 255]))
+        return bytes([t, len(body) - 256]) + body
+    return bytes([t, len(body)]) + body
+
+
+def valid_free(rng, v):
+    name = rng.choice([b"", b"a", b"file.txt", "\u00e9t\u00e9".encode(), bytes(rng.range(0x20, 0x7E) for _ in range(rng.range(1, 30)))])
+    if v == 2:
+        p = rng.choice([b"", b"pw"])
+        return D.le(12, 2) + D.le(len(name), 2) + D.le(12 + len(name), 2) + D.le(len(p), 2) + rng.bytes(4) + name + p
+    if v == 3: return D.le(26, 2) + D.le(len(name), 2) + rng.bytes(22) + name
+    if v == 4: return rng.bytes(13) + name
+    if v == 5: return rng.bytes(8) + fbytes(rng, rng.choice([0, 1, 100, 1500]))
+    if v == 6: return rng.bytes(9) + name
+    if v == 7: return D.le(20, 2) + D.le(len(name), 2) + rng.bytes(16) + name
+    return name
+
+
+def wellformed_header(rng, fc, room):
+    """a header the library accepts for this function code, with indices / counts at the edges and as many
+    objects as fit into `room`; None when nothing suitable fits"""
+    g, v, quals = rng.choice(AFFINITY[fc])
+    q = rng.choice(quals)
+    if g in (110, 111) and v == 0 and fc != 1:
+        v = rng.choice([1, 2, 255])
+    if q == D.Q_ALL:
+        return header_bytes(g, v, q, 0, 0)
+    if q == D.Q_FREE:
+        body = valid_free(rng, v)
+        return header_bytes(g, v, q, 1, len(body)) + body if len(body) + 6 <= room else None
+    wide = q in (D.Q_RANGE16, D.Q_COUNT16, D.Q_PREFIX16)
+    top = 65535 if wide else 255
+    if g == 0 and D.kind(fc, q, g, v) == "attr":
+        body = valid_attr(rng)
+        idx = rng.below(256)
+        h = header_bytes(g, v, q, idx, idx) if q in _RANGED else header_bytes(g, v, q, 1, 0) + D.le(idx, 2 if wide else 1)
+        return h + body if len(h) + len(body) <= room else None
+    one = exact_size(fc, g, v, q, 1)
+    if one is None:
+        return None
+    eight = exact_size(fc, g, v, q, 8)
+    per = max(one, 1) if eight == 8 * one else 0             # bits: handled below
+    if one == 0 and eight == 0:
+        n = rng.choice([1, 2, top, top + 1 if q in _RANGED else top, rng.range(1, top)])
+    elif eight != 8 * one:                                     # packed bits / double bits
+        n = min(rng.choice([1, 7, 8, 9, 4 * (room - 8), top + 1 if q in _RANGED else top]), max(1, 4 * (room - 8)))
+    else:
+        fit = max(0, (room - 8) // per)
+        if fit == 0: return None
+        n = min(fit, rng.choice([1, 2, fit, fit, top + 1 if q in _RANGED else top]))
+    n = max(1, min(n, top + 1 if q in _RANGED else top))
+    if q in _RANGED:
+        start = rng.choice([0, top + 1 - n, top + 1 - n, rng.range(0, top + 1 - n)])
+        h = header_bytes(g, v, q, start, start + n - 1)
+    else:
+        if rng.chance(1, 10): n = 0
+        h = header_bytes(g, v, q, n, 0)
+    size = exact_size(fc, g, v, q, n)
+    if len(h) + size > room:
+        return None
+    body = fbytes(rng, size)
+    if size and rng.chance(1, 5):
+        body = bytes([rng.choice([0x00, 0xFF, 0x7F, 0x80, 0x01])]) * size
+    return h + body
+
+
 def one_header(rng, fc, room):
     """one object header with edge-case range / count and a body that is exact, short, long or random"""
     g, v = rng.choice(GV_POOL) if rng.chance(9, 10) else (rng.below(256), rng.below(256))
@@ -174,10 +278,12 @@ def hostile_objects(rng, fc, maxlen):
         h = header_bytes(g, v, q, 0 if q in (D.Q_RANGE16, D.Q_RANGE8) else 65535, 65535)
         return (h + fbytes(rng, rng.choice([0, 1, 100, maxlen])))[:maxlen]
     out = b""
+    friendly = fc in AFFINITY and mode >= 7
     for _ in range(rng.range(1, 5)):
         room = maxlen - len(out) - 11
         if room <= 0: break
-        out += one_header(rng, fc, room)
+        h = wellformed_header(rng, fc, room if rng.chance(2, 3) else min(room, 60)) if (friendly and rng.chance(5, 6)) else None
+        out += h if h is not None else one_header(rng, fc, room)
     out = out[:maxlen]
     if mode == 4 and len(out) > 1:
         out = out[:rng.range(1, len(out) - 1)]            # cut anywhere
@@ -192,7 +298,8 @@ def hostile_objects(rng, fc, maxlen):
 
 
 def hostile_request(rng, seq, maxlen):
-    fc = rng.choice(FUNCS) if rng.chance(9, 10) else rng.below(256)
+    r = rng.below(20)
+    fc = rng.choice(REQ_FUNCS) if r < 11 else rng.choice(FUNCS) if r < 19 else rng.below(256)
     c = ost.ctl(seq, con=rng.chance(1, 8), uns=rng.chance(1, 12), fir=not rng.chance(1, 12), fin=not rng.chance(1, 12))
     k = rng.below(20)
     if k == 0: return bytes([c])
